@@ -70,7 +70,10 @@ def noteMsgs (d : DState) (msgs : List Msg) : DState :=
 def parseNats (s : String) : List Nat := (splitList s ",").map natArg
 
 /-- the model's answer and the new state -/
-def modelStep (d : DState) (ws : List String) : DState × String :=
+def parseRaceKind : String → Option RaceKind
+  | "c" => some .cancel | "r" => some .replace | "t" => some .timeout | "k" => some .finish | _ => none
+
+def modelStep (d : DState) (ws : List String) (impl : String := "") : DState × String :=
   match ws with
   | "reset" :: args => ({ ctl := { maxWaiting := natArg (kvGet args "max") }, mon := d.mon }, "ok")
   | kind :: args =>
@@ -134,6 +137,25 @@ def modelStep (d : DState) (ws : List String) : DState × String :=
       match c.getOp (natArg (kvGet args "id")) with
       | some o => ({ d with ctl := if o.status == .started then c.setOp { o with startedOld := true } else c }, "ok")
       | none => (d, "bad-op")
+    | "race" =>
+      -- competing end transitions on one started operator; which participant gets through first is the
+      -- scheduler's choice: it is read from the implementation's report (`winner=`), the others follow
+      let id := natArg (kvGet args "id")
+      match c.getOp id, (splitList (kvGet args "kinds") ",").mapM parseRaceKind with
+      | some o, some kinds =>
+        let nT := (kinds.filter (· == .timeout)).length
+        let nK := (kinds.filter (· == .finish)).length
+        if o.status != .created || c.waiting.flatten.contains id || kinds.isEmpty || nT > 1 || nK > 1 ||
+           (nT > 0 && o.steps.isEmpty) || (nK > 0 && !o.steps.isEmpty) then (d, "bad-op")
+        else
+          let w := (parseRaceKind (kvGet (words impl) "winner")).getD (kinds.headD .cancel)
+          let order := if kinds.contains w then w :: kinds.erase w else kinds
+          let (o', oks) := race o order
+          let wins := (oks.filter (fun x => x)).length
+          let winner := match (order.zip oks).find? (fun x => x.2) with | some x => x.1.letter | none => "-"
+          ({ d with ctl := c.setOp o' },
+           s!"wins={wins} winner={winner} final={o'.status.name} rec={if wins == 0 then "-" else o'.status.name}")
+      | _, _ => (d, "bad-op")
     | "sleep" =>
       ((match stepEv c (.sleep (natArg (kvGet args "ms"))) with | (c', _) => { d with ctl := c' }), "ok")
     | "delregion" =>
@@ -238,6 +260,14 @@ def monitorStep (m : C09.Mon) (ws : List String) (impl : String) : C09.Mon × Li
       match parseSim r impl with
       | some rs => (C09.noteSim m rs (kind == "exec") (kind == "caught"), [])
       | none => (m, [])
+    | "race" =>
+      let iw := words impl
+      if !(iw.any (fun w => w.startsWith "wins=")) then (m, []) else
+      match parseStatus (kvGet iw "final") with
+      | some fin =>
+        let recs := (splitList (kvGet iw "rec") "+").filterMap parseStatus
+        (m, (C09.raceComplaints ⟨natArg (kvGet iw "wins"), fin, recs⟩).map (fun x => x ++ s!" op={natArg (kvGet args "id")} kinds={kvGet args "kinds"}"))
+      | none => (m, ["sig=C09.unparsable-race-report"])
     | "delregion" => (C09.noteRegionGone m r, [])
     | "add" | "addw" | "promote" | "hb" | "push" | "rm" =>
       match parseDigest impl with
@@ -254,7 +284,7 @@ def monitorStep (m : C09.Mon) (ws : List String) (impl : String) : C09.Mon × Li
 
 def step (d : DState) (opLine : String) (impl : String) : DState × StepOut :=
   let ws := words opLine
-  let (d', out) := modelStep d ws
+  let (d', out) := modelStep d ws impl
   let (mon', fails) := monitorStep d.mon ws impl
   ({ d' with mon := mon' }, { model := out, fails := fails })
 
